@@ -308,3 +308,7 @@ impl FromStr for Chunker {
         }
     }
 }
+
+#[cfg(kani)]
+#[path = "/verif/harness/repofile_configfile.rs"]
+pub(crate) mod verif_harness;
